@@ -56,7 +56,8 @@ def registry():
         'untouched': 'not same(in, out) ==> all(k >= consumed() ==> old(out)[k] == oldmem(old(out), k) for k in range(old(data_len)))'}
     QUICK = ['bl16.inplace', 'bl16.disjoint', 'null_in', 'null_out', 'null_state', 'block_too_long']
     # the block just processed was still the caller's original input when the iteration started (ground instances of `unread`)
-    INPUT_BLOCK = 'all(iter(old(in)[consumed() - bl() + t]) == oldmem(old(in), consumed() - bl() + t) for t in range(bl()))'
+    # (inside iter(...) every name, hence consumed(), has its value at the start of the iteration)
+    INPUT_BLOCK = 'all(iter(old(in)[consumed() + t]) == oldmem(old(in), consumed() - bl() + t) for t in range(bl()))'
     EARLIER = 'all(k < consumed() - bl() ==> old(out)[k] == iter(old(out)[k]) for k in range(old(data_len)))'
 
     enc = dict(common_ens)
@@ -68,7 +69,7 @@ def registry():
     inv.update({
         'blocks': enc_blocks('old(out)', 'consumed()'),
         'chain': 'all(t < bl() ==> iv[t] == (old(cbcState.iv[t]) if consumed() == 0 else old(out)[consumed() - bl() + t]) for t in range(16))'})
-    R.fn('CBC_encrypt', regions=SHAPE, configs=cfgs, cost=60, quick=QUICK, modifies=['out', 'cbcState.iv'], ensures=enc, lemmas=LEM,
+    R.fn('CBC_encrypt', regions=SHAPE, configs=cfgs, cost=150, quick=QUICK, modifies=['out', 'cbcState.iv'], ensures=enc, lemmas=LEM,
          loops={0: dict(invariants=inv, decreases='data_len', split={'blocks': ('b', 'consumed() - bl()', 'b + bl() <= consumed() - bl()')}, lemmas={
              'input_block': INPUT_BLOCK,
              'new_block': 'all(old(out)[consumed() - bl() + t] == (ekx(atold(old(in) + consumed() - bl()), atold(cbcState.iv), bl(), t) if consumed() == bl() else '
@@ -86,7 +87,7 @@ def registry():
     inv.update({
         'blocks': dec_blocks('old(out)', 'consumed()'),
         'chain': 'all(t < bl() ==> iv[t] == (old(cbcState.iv[t]) if consumed() == 0 else oldmem(old(in), consumed() - bl() + t)) for t in range(16))'})
-    R.fn('CBC_decrypt', regions=SHAPE, configs=cfgs, cost=60, quick=QUICK, modifies=['out', 'cbcState.iv'], ensures=dec, lemmas=LEM,
+    R.fn('CBC_decrypt', regions=SHAPE, configs=cfgs, cost=110, quick=QUICK, modifies=['out', 'cbcState.iv'], ensures=dec, lemmas=LEM,
          loops={0: dict(invariants=inv, decreases='data_len', split={'blocks': ('b', 'consumed() - bl()', 'b + bl() <= consumed() - bl()')}, lemmas={
              'input_block': INPUT_BLOCK,
              'new_block': 'all(old(out)[consumed() - bl() + t] == dk(atold(old(in) + consumed() - bl()), bl(), t) ^ '
